@@ -6,7 +6,7 @@ use std::sync::Arc;
 
 use common::jitter::Jitter;
 use common::Rng;
-use futures::StreamExt;
+use bytes::BytesMut;
 use parking_lot::Mutex;
 use swimos_agent_protocol::encoding::downlink::DownlinkOperationDecoder;
 use swimos_agent_protocol::encoding::map::MapOperationDecoder;
@@ -17,14 +17,14 @@ use swimos_client_api::{Downlink, DownlinkConfig};
 use swimos_downlink::lifecycle::{BasicEventDownlinkLifecycle, BasicMapDownlinkLifecycle, BasicValueDownlinkLifecycle};
 use swimos_downlink::{DownlinkTask, EventDownlinkModel, MapDownlinkHandle, MapDownlinkModel, ValueDownlinkModel, ValueDownlinkSet};
 use swimos_utilities::byte_channel::{byte_channel, ByteReader, ByteWriter};
-use tokio::io::AsyncWriteExt;
-use tokio::sync::mpsc;
+use tokio::io::{AsyncReadExt, AsyncWriteExt};
+use tokio::sync::{mpsc, watch};
 use tokio::task::JoinHandle;
-use tokio_util::codec::FramedRead;
+use tokio_util::codec::Decoder;
 
-use crate::drive::{drive, new_trace, settle, CutMode, ImplObs, Target, Trace, IO_TIMEOUT};
+use crate::drive::{drive, new_trace, settle, CutMode, ImplObs, Issue, Target, Trace, IO_TIMEOUT};
 use crate::reference::Cb;
-use crate::script::{Flags, Kind, LocalOp, Step};
+use crate::script::{Fault, Flags, Kind, LocalOp, Step};
 
 fn nz(n: usize) -> NonZeroUsize {
     NonZeroUsize::new(n.max(1)).unwrap()
@@ -76,6 +76,11 @@ struct ClientTarget {
     /// consumer of the output go away.
     v_out_reader: Option<JoinHandle<()>>,
     m_out_reader: Option<JoinHandle<()>>,
+    v_gate: Gate,
+    m_gate: Gate,
+    /// The tasks themselves (to see whether a task ended when its input failed).
+    v_task: Option<Task>,
+    m_task: Option<Task>,
     stuck: Vec<String>,
 }
 
@@ -94,18 +99,31 @@ impl Target for ClientTarget {
         }
     }
 
-    async fn local(&mut self, _kind: Kind, op: &LocalOp) {
+    async fn local(&mut self, kind: Kind, op: &LocalOp, patient: bool) -> Issue {
         // A local write after the handle was dropped cannot be issued (the generators do not
         // produce one; the shrinker may).
+        // While the consumer of the output is stalled the task may be blocked on its output and the
+        // handle's queue full: that is back-pressure, not a stuck driver.
+        let gate_open = *(if kind == Kind::Value { &self.v_gate } else { &self.m_gate }).borrow();
+        let patient = patient && gate_open;
+        let wait = if patient { IO_TIMEOUT } else { std::time::Duration::from_millis(2) };
         let r = match (op, self.v_set.as_ref(), self.m_handle.as_ref()) {
-            (LocalOp::SetV(v), Some(h), _) => tokio::time::timeout(IO_TIMEOUT, h.send(ValueDownlinkSet { to: *v })).await.map(|r| r.is_ok()),
-            (LocalOp::Upd(k, v), _, Some(h)) => tokio::time::timeout(IO_TIMEOUT, h.update(*k, *v)).await.map(|r| r.is_ok()),
-            (LocalOp::Rem(k), _, Some(h)) => tokio::time::timeout(IO_TIMEOUT, h.remove(*k)).await.map(|r| r.is_ok()),
-            (LocalOp::Clr, _, Some(h)) => tokio::time::timeout(IO_TIMEOUT, h.clear()).await.map(|r| r.is_ok()),
-            _ => Ok(false),
+            (LocalOp::SetV(v), Some(h), _) => tokio::time::timeout(wait, h.send(ValueDownlinkSet { to: *v })).await.map(|r| r.is_ok()),
+            (LocalOp::Upd(k, v), _, Some(h)) => tokio::time::timeout(wait, h.update(*k, *v)).await.map(|r| r.is_ok()),
+            (LocalOp::Rem(k), _, Some(h)) => tokio::time::timeout(wait, h.remove(*k)).await.map(|r| r.is_ok()),
+            (LocalOp::Clr, _, Some(h)) => tokio::time::timeout(wait, h.clear()).await.map(|r| r.is_ok()),
+            _ => return Issue::NoHandle,
         };
-        if r.is_err() {
-            self.stuck.push("client: local write not accepted by the handle".to_string());
+        match r {
+            Ok(true) => Issue::Taken,
+            // The receiving side is gone: the task has ended.
+            Ok(false) => Issue::NoHandle,
+            Err(_) => {
+                if patient {
+                    self.stuck.push("client: local write not accepted by the handle".to_string());
+                }
+                Issue::Refused
+            }
         }
     }
 
@@ -126,6 +144,43 @@ impl Target for ClientTarget {
             r.abort();
             let _ = r.await;
         }
+    }
+
+    fn output_gate(&mut self, kind: Kind, open: bool) {
+        let _ = match kind {
+            Kind::Value => self.v_gate.send(open),
+            Kind::Map => self.m_gate.send(open),
+        };
+    }
+
+    async fn stop(&mut self, kind: Kind) {
+        // The client downlinks cannot be told to stop; the nearest thing is to give up the handle.
+        self.drop_handle(kind).await;
+    }
+
+    async fn input_fault(&mut self, kind: Kind, fault: &Fault) {
+        let (bytes, close) = fault.bytes(kind);
+        if !bytes.is_empty() {
+            let _ = self.write(kind, &bytes).await;
+        }
+        if close {
+            match kind {
+                Kind::Value => {
+                    self.v_in.writer = None;
+                    self.e_in.writer = None;
+                }
+                Kind::Map => self.m_in.writer = None,
+            }
+        }
+    }
+
+    async fn after_input_fault(&mut self, kind: Kind) -> (bool, bool) {
+        let ended = match kind {
+            Kind::Value => self.v_task.as_ref().map_or(true, |t| t.is_finished()),
+            Kind::Map => self.m_task.as_ref().map_or(true, |t| t.is_finished()),
+        };
+        // A client downlink task has one connection for its whole life.
+        (ended, false)
     }
 
     fn trace_len(&self, kind: Kind) -> usize {
@@ -165,29 +220,82 @@ fn map_lifecycle(trace: Trace) -> impl swimos_downlink::lifecycle::MapDownlinkLi
         .on_unlink_blocking(|t| t.lock().push(Cb::Unlinked))
 }
 
-pub async fn value_op_reader(rx: ByteReader, out: Arc<Mutex<Vec<u64>>>) {
-    let mut framed = FramedRead::new(rx, DownlinkOperationDecoder);
-    while let Some(Ok(op)) = framed.next().await {
-        let v = std::str::from_utf8(op.body.as_ref()).ok().and_then(|s| s.trim().parse::<u64>().ok()).unwrap_or(u64::MAX);
-        out.lock().push(v);
+/// How the harness plays the consumer of the downlinks' output (both implementations).
+#[derive(Clone, Copy, Debug, Default)]
+pub struct Env {
+    /// Capacity of the output byte channels (None: the roomy default of the implementation's driver).
+    pub out_cap: Option<usize>,
+    /// The consumer of the output does not read until an `OutputGate(true)` step.
+    pub out_stalled: bool,
+}
+
+pub type Gate = watch::Sender<bool>;
+
+/// Reads the output of a downlink while the gate is open: bytes are taken from the channel only
+/// then (a read that is waiting when the gate closes is abandoned, nothing is consumed by it).
+async fn gated_frames<D: Decoder>(mut rx: ByteReader, mut dec: D, mut gate: watch::Receiver<bool>, mut sink: impl FnMut(D::Item)) {
+    let mut buf = BytesMut::new();
+    loop {
+        while !*gate.borrow_and_update() {
+            if gate.changed().await.is_err() {
+                return;
+            }
+        }
+        tokio::select! {
+            biased;
+            changed = gate.changed() => {
+                if changed.is_err() {
+                    return;
+                }
+            }
+            n = rx.read_buf(&mut buf) => {
+                let eof = !matches!(n, Ok(n) if n > 0);
+                while let Ok(Some(item)) = dec.decode(&mut buf) {
+                    sink(item);
+                }
+                if eof {
+                    return;
+                }
+            }
+        }
     }
 }
 
-pub async fn map_op_reader(rx: ByteReader, out: Arc<Mutex<Vec<LocalOp>>>) {
-    let mut framed = FramedRead::new(rx, MapOperationDecoder::<i32, u64>::default());
-    while let Some(Ok(op)) = framed.next().await {
+pub async fn value_op_reader(rx: ByteReader, out: Arc<Mutex<Vec<u64>>>, gate: watch::Receiver<bool>) {
+    gated_frames(rx, DownlinkOperationDecoder, gate, |op| {
+        let v = std::str::from_utf8(op.body.as_ref()).ok().and_then(|s| s.trim().parse::<u64>().ok()).unwrap_or(u64::MAX);
+        out.lock().push(v);
+    })
+    .await
+}
+
+pub async fn map_op_reader(rx: ByteReader, out: Arc<Mutex<Vec<LocalOp>>>, gate: watch::Receiver<bool>) {
+    gated_frames(rx, MapOperationDecoder::<i32, u64>::default(), gate, |op| {
         out.lock().push(match op {
             MapOperation::Update { key, value } => LocalOp::Upd(key, value),
             MapOperation::Remove { key } => LocalOp::Rem(key),
             MapOperation::Clear => LocalOp::Clr,
         });
+    })
+    .await
+}
+
+/// Stable class of a task error (for counters).
+fn error_class(e: &DownlinkTaskError) -> &'static str {
+    match e {
+        DownlinkTaskError::FailedToStart => "failed-to-start",
+        DownlinkTaskError::BadFrame(_) => "bad-frame",
+        DownlinkTaskError::DeserializationFailed(_) => "deserialization-failed",
+        DownlinkTaskError::SyncedWithNoValue => "synced-with-no-value",
+        _ => "other",
     }
 }
 
 async fn finish(task: Task, name: &'static str, kind: &'static str, obs: &mut ImplObs, errors_are_findings: bool) {
     match tokio::time::timeout(IO_TIMEOUT, task).await {
-        Ok(Ok(Ok(()))) => {}
+        Ok(Ok(Ok(()))) => obs.task_end.push((kind, "ok".into())),
         Ok(Ok(Err(e))) => {
+            obs.task_end.push((kind, format!("error:{}", error_class(&e))));
             if errors_are_findings {
                 obs.problems.push(("task-error", kind, format!("{name} failed on a legal sequence: {e}")));
             }
@@ -207,6 +315,16 @@ async fn finish(task: Task, name: &'static str, kind: &'static str, obs: &mut Im
 
 /// Run the client value, event and map downlinks over the merged script.
 pub fn run_client(flags: Flags, merged: &[(Kind, usize, Step)], n_value: usize, n_map: usize, mode: CutMode, rng: &mut Rng, legal: bool) -> ImplObs {
+    run_client_in(flags, merged, n_value, n_map, mode, rng, legal, &Env::default())
+}
+
+/// As `run_client`, with the consumer of the outputs configured by `env`. A task whose input is made
+/// to fail by the script may end with an error: that is recorded (`task_end`), not reported.
+#[allow(clippy::too_many_arguments)]
+pub fn run_client_in(flags: Flags, merged: &[(Kind, usize, Step)], n_value: usize, n_map: usize, mode: CutMode, rng: &mut Rng, legal: bool, env: &Env) -> ImplObs {
+    let env = *env;
+    let faulted = |kind: Kind| merged.iter().any(|(k, _, s)| *k == kind && matches!(s, Step::InputFault(_)));
+    let (v_faulted, m_faulted) = (faulted(Kind::Value), faulted(Kind::Map));
     let rt = tokio::runtime::Builder::new_current_thread().enable_time().start_paused(true).build().expect("tokio runtime");
     let mut rng = rng.clone();
     rt.block_on(async move {
@@ -218,7 +336,7 @@ pub fn run_client(flags: Flags, merged: &[(Kind, usize, Step)], n_value: usize, 
         let jitter = *rng.pick(&[0u64, 0, 50, 300]);
 
         let (v_in_tx, v_in_rx) = byte_channel(nz(caps[0]));
-        let (v_out_tx, v_out_rx) = byte_channel(nz(caps[1].max(64)));
+        let (v_out_tx, v_out_rx) = byte_channel(nz(env.out_cap.unwrap_or(caps[1].max(64))));
         let (v_set, v_set_rx) = mpsc::channel(16);
         let v_model = ValueDownlinkModel::new(v_set_rx, value_lifecycle(vtrace.clone()));
         let v_task: Task = tokio::spawn(Jitter::new(DownlinkTask::new(v_model).run(Address::text(None, "/remote", "v"), config, v_in_rx, v_out_tx), rng.fork(), jitter));
@@ -229,15 +347,17 @@ pub fn run_client(flags: Flags, merged: &[(Kind, usize, Step)], n_value: usize, 
         let e_task: Task = tokio::spawn(Jitter::new(DownlinkTask::new(e_model).run(Address::text(None, "/remote", "v"), config, e_in_rx, e_out_tx), rng.fork(), jitter));
 
         let (m_in_tx, m_in_rx) = byte_channel(nz(caps[3]));
-        let (m_out_tx, m_out_rx) = byte_channel(nz(caps[4].max(64)));
+        let (m_out_tx, m_out_rx) = byte_channel(nz(env.out_cap.unwrap_or(caps[4].max(64))));
         let (m_ops, m_ops_rx) = mpsc::channel(16);
         let m_model = MapDownlinkModel::new(m_ops_rx, map_lifecycle(mtrace.clone()));
         let m_task: Task = tokio::spawn(Jitter::new(DownlinkTask::new(m_model).run(Address::text(None, "/remote", "m"), config, m_in_rx, m_out_tx), rng.fork(), jitter));
 
         let v_out = Arc::new(Mutex::new(Vec::new()));
         let m_out = Arc::new(Mutex::new(Vec::new()));
-        let r1 = tokio::spawn(value_op_reader(v_out_rx, v_out.clone()));
-        let r2 = tokio::spawn(map_op_reader(m_out_rx, m_out.clone()));
+        let (v_gate, v_gate_rx) = watch::channel(!env.out_stalled);
+        let (m_gate, m_gate_rx) = watch::channel(!env.out_stalled);
+        let r1 = tokio::spawn(value_op_reader(v_out_rx, v_out.clone(), v_gate_rx));
+        let r2 = tokio::spawn(map_op_reader(m_out_rx, m_out.clone(), m_gate_rx));
 
         let mut target = ClientTarget {
             vtrace: vtrace.clone(),
@@ -249,22 +369,36 @@ pub fn run_client(flags: Flags, merged: &[(Kind, usize, Step)], n_value: usize, 
             m_handle: Some(MapDownlinkHandle::new(m_ops)),
             v_out_reader: Some(r1),
             m_out_reader: Some(r2),
+            v_gate,
+            m_gate,
+            v_task: Some(v_task),
+            m_task: Some(m_task),
             stuck: vec![],
         };
         let marks = drive(&mut target, merged, n_value, n_map, mode, &mut rng).await;
+        // Whatever the script did with the consumers of the outputs: they read from now on.
+        target.output_gate(Kind::Value, true);
+        target.output_gate(Kind::Map, true);
+        settle().await;
+        settle().await;
         let mut obs = ImplObs { marks, ..Default::default() };
         obs.vtrace = vtrace.lock().clone();
         obs.mtrace = mtrace.lock().clone();
         obs.etrace = Some(etrace.lock().clone());
         // Close the inputs: every task must now run to completion.
-        let ClientTarget { v_in, e_in, m_in, v_set, m_handle, stuck, v_out_reader, m_out_reader, .. } = target;
+        let ClientTarget { v_in, e_in, m_in, v_set, m_handle, stuck, v_out_reader, m_out_reader, v_task, m_task, v_gate, m_gate, .. } = target;
         drop((v_in, e_in, m_in));
         settle().await;
-        finish(v_task, "client value downlink task", "value", &mut obs, legal).await;
-        finish(e_task, "client event downlink task", "event", &mut obs, legal).await;
-        finish(m_task, "client map downlink task", "map", &mut obs, legal).await;
+        if let Some(v_task) = v_task {
+            finish(v_task, "client value downlink task", "value", &mut obs, legal && !v_faulted).await;
+        }
+        finish(e_task, "client event downlink task", "event", &mut obs, legal && !v_faulted).await;
+        if let Some(m_task) = m_task {
+            finish(m_task, "client map downlink task", "map", &mut obs, legal && !m_faulted).await;
+        }
         drop((v_set, m_handle));
         settle().await;
+        drop((v_gate, m_gate));
         obs.v_after_close = vtrace.lock()[obs.vtrace.len()..].to_vec();
         obs.m_after_close = mtrace.lock()[obs.mtrace.len()..].to_vec();
         obs.v_out = v_out.lock().clone();
